@@ -147,7 +147,9 @@ func (e *env) at(name string, applicable bool) bool {
 	return false
 }
 
-func (e *env) query() bool { return e.c.Mode == "query" }
+// query reports whether the call is a workspace query (lwork = -1). The fault
+// "queryEmptyWork" is a query whose work slice is empty.
+func (e *env) query() bool { return e.c.Mode == "query" || e.c.Fault == "queryEmptyWork" }
 func (e *env) guard() bool { return e.c.Mode == "guardE" || e.c.Mode == "guardS" }
 
 // d returns raw dimension i.
@@ -268,6 +270,15 @@ func (e *env) work(lw int) *op[float64] {
 	o := e.f64("work", max(1, lw))
 	e.workOp = o
 	return o
+}
+
+// fwork passes the workspace of an lwork routine: one element shorter than
+// max(1,lwork) under "shortWork", empty under "queryEmptyWork".
+func (e *env) fwork(o *op[float64]) []float64 {
+	if e.at("queryEmptyWork", true) {
+		return o.s[:0:0]
+	}
+	return fs(e, "shortWork", o, true)
 }
 
 func (e *env) ints(name string, need int, exact bool, fill func(i int) int) *op[int] {
